@@ -33,7 +33,8 @@ check("C14", "DESIGN.md 5/C14",
       "acceptance of a string that needs a disabled operator). ParserSession: TLC checks cache coherence and that every parse call returns "
       "what the public configuration at the time of the call prescribes (so a disabled operator is rejected on every history, also after "
       "reconfiguration and cloning); two seeded design errors of the model are required to violate the laws (non-vacuity); multistage "
-      "stages are modelled (Wilkinson.tla evaluates on Structured trees).",
+      "stages are modelled (Wilkinson.tla evaluates on Structured trees). Random behaviours of ParserSession (tlc -simulate, histories of 10 calls) "
+      "are replayed like the enumerated ones.",
       "Trusted: ast.parse as oracle of fragment validity, lexical classes from the documented regexes. Bounded: strings <= 3-4 chars "
       "(quick) / <= 4-6 (thorough) exhaustively, fuzzed strings up to 120 chars, parser histories of <= 3 / 4 calls on two objects. "
       "Known finding D33 (nested multistage left-hand side escapes with NotImplementedError, demanded by the repository's own test) is reported as KNOWN-FINDING.")
@@ -72,7 +73,7 @@ check("C19", "DESIGN.md 5/C19",
       "TLC checks the container laws on every tree of a bounded shape family (map visits leaves once in flatten order and preserves shape, "
       "simplify idempotent and leaf-preserving, update/merge as dictionary merges) and on every operation history up to the bound "
       "(top-first merge with writes confined to the private layer as an action property, ordering invariant, multiset law and list law of the "
-      "formula sequence under each ordering mode none / degree / sort); each case is replayed into real Structured / LayeredMapping / SimpleFormula objects and alpha(object) compared.",
+      "formula sequence under each ordering mode none / degree / sort; random behaviours of 8 operations by tlc -simulate); each case is replayed into real Structured / LayeredMapping / SimpleFormula objects and alpha(object) compared.",
       "Trusted: gamma/alpha between abstract values and the objects (alpha(gamma(t)) = t is itself checked). Bounded: shape family of "
       "depth 3, histories of <= 2-4 operations over 3 keys / 7 terms x 3 ordering modes x 4 starting formulas.")
 
@@ -140,7 +141,8 @@ check("C05", "DESIGN.md 5/C05",
       "rationals) is built as C(g, contr...) + x with and without an intercept on all 54 combinations. Registry.tla: every sequence of "
       "<= 4 / 5 materializer class definitions (names, explicit input types, outputs, precedence, SUPPORTS_INPUT predicates) with the laws "
       "sorted lists / sound / complete / priority / monotone; each history is replayed by defining real subclasses (registry saved and "
-      "restored) and every for_data / for_materializer query compared; the shipped registry is queried for pandas, recarray and Arrow inputs.",
+      "restored) and every for_data / for_materializer query compared (also random sequences of 7 definitions by tlc -simulate); the shipped registry "
+      "is queried for pandas, recarray and Arrow inputs. Structured formulas with missing data (MC_Missing) are built on rotating combinations.",
       "Trusted: gamma including pyarrow.Table.from_pandas, alpha. Index labels are C06's business and are not compared here.")
 
 check("C08", "DESIGN.md 5/C08",
